@@ -664,10 +664,10 @@ attrsLoop:
 						var appended bool
 						if htmlAttr.Key == "rel" && (addNoFollow || addNoReferrer) {
 
-							if addNoFollow && !strings.Contains(htmlAttr.Val, "nofollow") {
+							if addNoFollow && !relHasToken(htmlAttr.Val, "nofollow") {
 								htmlAttr.Val += " nofollow"
 							}
-							if addNoReferrer && !strings.Contains(htmlAttr.Val, "noreferrer") {
+							if addNoReferrer && !relHasToken(htmlAttr.Val, "noreferrer") {
 								htmlAttr.Val += " noreferrer"
 							}
 							noFollowFound = addNoFollow
@@ -741,7 +741,7 @@ attrsLoop:
 						for _, htmlAttr := range cleanAttrs {
 							var appended bool
 							if htmlAttr.Key == "rel" {
-								if strings.Contains(htmlAttr.Val, "noopener") {
+								if relHasToken(htmlAttr.Val, "noopener") {
 									noOpenerAdded = true
 									tmpAttrs = append(tmpAttrs, htmlAttr)
 								} else {
@@ -1117,6 +1117,17 @@ func isVoidElement(elementName string) bool {
 	case "area", "base", "br", "col", "embed", "frame", "hr", "img", "input",
 		"keygen", "link", "meta", "param", "source", "track", "wbr":
 		return true
+	}
+	return false
+}
+
+// relHasToken reports whether the space-separated rel value contains the
+// link type token (link types are ASCII case-insensitive)
+func relHasToken(rel, token string) bool {
+	for _, t := range strings.Fields(rel) {
+		if strings.EqualFold(t, token) {
+			return true
+		}
 	}
 	return false
 }
